@@ -37,7 +37,7 @@ type acfg struct {
 	bursts  []int  // frames per burst (after the 101 response)
 	early   int    // leading frames sent in the same burst as the upgrade request (a client that does not wait)
 	nowait  bool   // the client does not wait for the 101 response before it sends its bursts / ends (not conforming either)
-	end     string // fin | rst | hclose | tclose
+	end     string // fin | rst | hclose | tclose | oclose (OnOpen calls Close) | fin+tclose | none (family d)
 	closeAt int    // hclose: index of the message whose handler calls Close
 	echo    bool   // the message handler answers with WriteMessage
 	writers int    // family (d): concurrent writer threads (0: family a)
@@ -48,7 +48,7 @@ type acfg struct {
 
 func (c acfg) name() string {
 	if c.writers > 0 {
-		return fmt.Sprintf("engine-writers %s exec=%s writers=%d F=%d K=%d", c.mode, c.exec, c.writers, c.f, c.k)
+		return fmt.Sprintf("engine-writers %s exec=%s writers=%d F=%d K=%d end=%s", c.mode, c.exec, c.writers, c.f, c.k, c.end)
 	}
 	return fmt.Sprintf("order %s exec=%s msgs=%d frag=%v bursts=%v early=%d nowait=%v end=%s@%d echo=%v", c.mode, c.exec, c.msgs, c.frag, c.bursts, c.early, c.nowait, c.end, c.closeAt, c.echo)
 }
@@ -138,6 +138,17 @@ func orderBody(c acfg) func() {
 			}
 		})
 
+		if c.end == "oclose" {
+			u.OnOpen(func(conn *websocket.Conn) {
+				l.enter("open")
+				l.openStart = append(l.openStart, w.tick())
+				vsched.Point()
+				_ = conn.Close()
+				vsched.Point()
+				l.leave()
+				l.openEnd = append(l.openEnd, w.tick())
+			})
+		}
 		k := c.k
 		if k == 0 {
 			k = 1 << 20
@@ -179,13 +190,13 @@ func orderBody(c acfg) func() {
 				}
 			}
 			switch c.end {
-			case "fin":
+			case "fin", "fin+tclose":
 				peer.Close()
 			case "rst":
 				peer.Reset()
 			}
 		})
-		if c.end == "tclose" {
+		if strings.Contains(c.end, "tclose") {
 			vsched.GoNamed("closer", func() {
 				vsched.Block("closer.wait-conn", func() bool { return wsc != nil || upgradeRet != 0 })
 				w.tick()
@@ -215,7 +226,7 @@ func orderBody(c acfg) func() {
 		// ---- oracle
 		opened := upgradeRet != 0 && upgradeErr == nil
 		closedNow, _ := nbc.IsClosed()
-		if c.writers == 0 && !closedNow {
+		if (c.writers == 0 || strings.Contains(c.end, "tclose")) && !closedNow {
 			w.failf("conn-not-closed end=%s|the scenario ends the connection (%s) but the nbio connection is still open at quiescence", c.end, c.end)
 		}
 		if handlerCalls > 1 {
@@ -252,12 +263,22 @@ func orderBody(c acfg) func() {
 				for _, m := range msgs {
 					if m.call != 0 && m.ret == 0 {
 						w.failf("write-stuck|the call writing %s never returned", m.id)
-					} else if m.err != nil {
+					} else if m.err != nil && (c.end == "none" || c.end == "") {
 						w.failf("write-error|writing %s on an open connection failed: %v", m.id, m.err)
 					}
 				}
 			}
-			res := judgeWire(w, gotWire, all, c.writers > 0, c.writers == 0, c.name())
+			racingClose := c.writers > 0 && c.end != "none" && c.end != ""
+			res := judgeWire(w, gotWire, all, c.writers > 0 && !racingClose, c.writers == 0 || racingClose, c.name())
+			if racingClose && c.k >= 1<<20 {
+				// the socket took every frame at once: what WriteMessage accepted was in the kernel
+				// before the close and reaches the peer
+				for _, m := range msgs {
+					if m.ret != 0 && m.err == nil && res.v != nil && res.count[m.id] == 0 {
+						w.failf("wire-lost|message %s was accepted (nil error) by a socket with room for everything, yet it is not on the wire; wire=%s (%s)", m.id, wireStr(res.frames), c.name())
+					}
+				}
+			}
 			if res.v != nil {
 				cnt["messages_on_wire"] = len(res.v.Events)
 			}
@@ -280,6 +301,5 @@ func orderBody(c acfg) func() {
 			lastOutcome = "engine-writers"
 		}
 		w.flush()
-		_ = strings.TrimSpace
 	}
 }
